@@ -54,9 +54,25 @@ class RemoveEmptyStringConcatenation(
         if is_empty_string_literal(left):
             if is_empty_string_literal(right):
                 return cst.SimpleString(value='""')
-            return right
+            return self._keep_parentheses(updated_node, right)
         if is_empty_string_literal(right):
             if is_empty_string_literal(left):
                 return cst.SimpleString(value='""')
-            return left
+            return self._keep_parentheses(updated_node, left)
         return updated_node
+
+    @staticmethod
+    def _keep_parentheses(
+        updated_node: cst.BinaryOperation | cst.ConcatenatedString,
+        operand: cst.BaseExpression,
+    ) -> cst.BaseExpression:
+        """
+        The operand that remains takes over the parentheses of the concatenation: in
+        `(a\n + b\n + "")` they are what allows the expression to span several lines.
+        """
+        if updated_node.lpar:
+            return operand.with_changes(
+                lpar=[*updated_node.lpar, *operand.lpar],
+                rpar=[*operand.rpar, *updated_node.rpar],
+            )
+        return operand
